@@ -69,6 +69,13 @@ public:
 
     bool performTestWithHistory(History &history, const UnitsConstPtr &units, TestType type) const;
 
+    /**
+     * @brief Clone the units, taking the clone's import source from the given map.
+     *
+     * @sa clonedImportSource
+     */
+    UnitsPtr clone(ImportSourceMap &importSourceMap) const;
+
     Units *mUnits = nullptr;
 };
 
